@@ -170,7 +170,7 @@ def _c15_cov(rs):
     return {"states": max(1, _sum(rs, "distinct_signatures")), "transitions": _sum(rs, "parses"), "traces_validated_against_impl": hist,
             "distinct_nontrivial": _sum(rs, "final_rejected") + _sum(rs, "final_with_validity_errors") + _sum(rs, "instances_invalid") + _sum(rs, "handler_exceptions_thrown"),
             "nonvacuity": {k: _sum(rs, k) for k in ("final_accepted", "final_rejected", "final_with_validity_errors", "handler_exceptions_thrown", "documents_adopted",
-                                                     "adopted_documents_rechecked", "instances_valid", "instances_invalid", "locked_pool_checks")},
+                                                     "adopted_documents_rechecked", "instances_valid", "instances_invalid", "locked_pool_checks", "growth_histories")},
             "explanation": "states = distinct abstract reference-model states (final configuration x API) reached; transitions = operations executed on real parser objects; "
                            "traces = complete histories, each executed on a long-lived parser and compared with a freshly constructed one"}
 
@@ -184,17 +184,23 @@ CHECKS["C15"] = dict(
          "{SAXParser, SAX2XMLReader, XercesDOMParser}; the final parse(doc) on the used parser must equal the same parse on a freshly constructed parser with the "
          "same configuration; adopted documents are re-dumped at the end. Cache space: every (API x document-with-grammar x way of caching {loadGrammar, "
          "cacheGrammarFromParse on a sibling document, all grammars} x disturbance {none, failed parse, abandoned progressive parse, pool reset+reload}) "
-         "compared (verdict, errors, element/attribute/text events with defaults) with validating against the grammar inline; a locked pool must keep its key set.",
+         "compared (verdict, errors, element/attribute/text events with defaults) with validating against the grammar inline; a locked pool must keep its key set. "
+         "Table-growth space: every sequence of <= 2 (thorough 3) parses, on one parser, of 9 documents that push the per-parser tables past their initial capacity (70 distinct "
+         "declared attributes specified on one element - the attribute-bookkeeping pool has rows of 64 -, 40 nested elements, 40 namespace declarations, 120 attributes on one "
+         "element, 70 IDs) and of small documents over the same DTD, x {no caching, cacheGrammarFromParse+useCachedGrammarInParse, preloaded grammar} x 3 APIs; the final parse "
+         "of every document must equal the parse by a fresh parser.",
     trusted_base=["clang 14 ASan/UBSan"],
     assumptions=["when a cached DTD grammar is used, declaration events and the DOM doctype's entity map are not replayed by design; they are projected away (the property names verdicts, defaults and type information)"],
     coverage=_c15_cov,
     runs=dict(
         quick=[_hx("histories-depth1", "--space", "hist", "--depth", 1),
                _hx("histories-depth2-6docs", "--space", "hist", "--depth", 2, "--opdocs", 6),
-               _hx("cache-transparency", "--space", "cache")],
+               _hx("cache-transparency", "--space", "cache"),
+               _hx("table-growth-histories-depth2", "--space", "growth", "--depth", 2)],
         thorough=[_hx("histories-depth2", "--space", "hist", "--depth", 2),
                   _hx("histories-depth3-3docs", "--space", "hist", "--depth", 3, "--opdocs", 3),
-                  _hx("cache-transparency", "--space", "cache")],
+                  _hx("cache-transparency", "--space", "cache"),
+                  _hx("table-growth-histories-depth3", "--space", "growth", "--depth", 3)],
     ),
     manifest=dict(technique="exhaustive enumeration of operation histories up to a depth on long-lived real parser objects, each compared with a fresh parser (reference model = configuration tracking)",
                   text="All histories within the depth bound are executed on the real parser; hidden state is exactly what is under test, so no state merging is done on the implementation side."),
